@@ -81,7 +81,11 @@ func pktOfArgs(a [][]byte) *dhcpv4.DHCPv4 {
 	copy(p.TransactionID[:], a[3])
 	rest := a[13:]
 	for len(rest) >= 2 && len(rest[0]) == 1 {
-		p.Options[rest[0][0]] = rest[1]
+		if len(rest[1]) == 0 {
+			p.Options[rest[0][0]] = nil // what a zero-length option decodes to
+		} else {
+			p.Options[rest[0][0]] = rest[1]
+		}
 		rest = rest[2:]
 	}
 	return p
